@@ -53,6 +53,10 @@ def run_programs(cfg, programs, nproc=None, timeout=900):
     nproc = nproc or NPROC
     if not programs:
         return []
+    if len(set(p["id"] for p in programs)) != len(programs):
+        seen = set()
+        dup = [p["id"] for p in programs if p["id"] in seen or seen.add(p["id"])]
+        raise MachineryError("duplicate program ids: %s" % dup[:5])
     nchunks = max(1, min(nproc, (len(programs) + 7) // 8))
     chunks = [programs[i::nchunks] for i in range(nchunks)]
     with scratch("drv_") as d:
